@@ -11,6 +11,6 @@ CONTRACTS = list(CONTRACTS) + [MapAttributesStub, EntityInitRefusal]
 
 MANIFEST = {
     "category": "proof",
-    "text": "Workspace.close is verified on every path: an open writable workspace saves the whole root subtree exactly once and then releases the handle exactly once; a read-only one writes nothing; closing a closed or never-opened workspace does nothing. Workspace.__exit__ closes however the block ended and never swallows the exception; Workspace.geoh5 and _io_call raise the dedicated closed-file error on a closed handle and never call the I/O function; fetch_active_workspace closes the workspace it opened also when the block raises. Workspace.close is also verified to flush pending concatenated attribute records before the final save for workspaces stored in a path or in an in-memory buffer; Workspace.open on an already open workspace changes nothing (same handle, same registries) and otherwise resets all five registries and uses the requested/constructed mode. Close histories (explicit close, with-block, escaping exception; on disk and in memory) are the bounded part. Round-5 additions: the reader's fetch_attributes contract (loaded records are flagged as stored, which is what lets later edits write through) and close histories on files whose Root link -- and root group node -- were deleted (the session works on the rebuilt tree). Round-6 additions: save_as stand-in (disk and memory, deferred edits, second save_as in a row). Round-7 additions: a chain group -> group -> points whose first save is left to the close (three levels below the root), on disk, in memory and with an exception escaping the with-block.",
+    "text": "Workspace.close is verified on every path: an open writable workspace saves the whole root subtree exactly once and then releases the handle exactly once; a read-only one writes nothing; closing a closed or never-opened workspace does nothing. Workspace.__exit__ closes however the block ended and never swallows the exception; Workspace.geoh5 and _io_call raise the dedicated closed-file error on a closed handle and never call the I/O function; fetch_active_workspace closes the workspace it opened also when the block raises. Workspace.close is also verified to flush pending concatenated attribute records before the final save for workspaces stored in a path or in an in-memory buffer; Workspace.open on an already open workspace changes nothing (same handle, same registries) and otherwise resets all five registries and uses the requested/constructed mode. Close histories (explicit close, with-block, escaping exception; on disk and in memory) are the bounded part. Round-5 additions: the reader's fetch_attributes contract (loaded records are flagged as stored, which is what lets later edits write through) and close histories on files whose Root link -- and root group node -- were deleted (the session works on the rebuilt tree). Round-6 additions: save_as stand-in (disk and memory, deferred edits, second save_as in a row). Round-7 additions: a chain group -> group -> points whose first save is left to the close (three levels below the root), on disk, in memory and with an exception escaping the with-block. Round-9 addition: Entity.__init__ under contract (a refused creation, whatever the exception class, leaves no half-built child for the final save of an aborted with-block to write).",
     "note": "Partial by design: 'everything completed before the close is in the file' rests on the write-through obligations of C03/C01; exceptions raised inside the final save are not characterised; the h5py open-object count is outside the model (one handle is modelled); open()'s registry reset and save_as are not under contract; no native replay yet.",
 }
